@@ -126,6 +126,46 @@ theorem legacyPut_inv {w : W} (hw : WInv w) (now : Nat) (k : Path) (data : Bytes
     · rw [aget_aset_ne _ _ _ _ (by simp)] at he
       exact hw.be.decodes x e he
 
+/-! ### a crash inside `collect_garbage`; aborted uploads -/
+
+theorem gcSweepCut_safe {be : Backend} {n : Nat} (h : BInv be n) (inflight : List (Path × Gen)) (cands : List BPath)
+    (budget : Nat) :
+    BInv (gcSweepCut inflight be cands budget) n ∧
+    (∀ x, readCold (gcSweepCut inflight be cands budget) x = readCold be x) ∧
+    (∀ x, docAt (gcSweepCut inflight be cands budget) x = docAt be x) := by
+  induction cands generalizing be budget with
+  | nil => exact ⟨h, fun _ => rfl, fun _ => rfl⟩
+  | cons p ps ih =>
+      simp only [gcSweepCut]
+      obtain ⟨h1, r1, d1⟩ := gcCandidateStep_safe h inflight p
+      split
+      · obtain ⟨h2, r2, d2⟩ := ih h1 (budget - (gcCandidateStep inflight be p).2)
+        exact ⟨h2, fun x => by rw [r2 x, r1 x], fun x => by rw [d2 x, d1 x]⟩
+      · exact ⟨h, fun _ => rfl, fun _ => rfl⟩
+
+/-- with enough budget the cut sweep is the whole sweep -/
+theorem gcSweepCut_full (inflight : List (Path × Gen)) (be : Backend) (cands : List BPath) (budget : Nat)
+    (hb : (gcSweep inflight be cands).2 ≤ budget) :
+    gcSweepCut inflight be cands budget = (gcSweep inflight be cands).1 := by
+  induction cands generalizing be budget with
+  | nil => rfl
+  | cons p ps ih =>
+      simp only [gcSweep] at hb ⊢
+      simp only [gcSweepCut]
+      have h1 : (gcCandidateStep inflight be p).2 ≤ budget := by omega
+      rw [if_pos h1]
+      exact ih _ _ (by omega)
+
+theorem gcCrashState_inv {w : W} (hw : WInv w) (now n : Nat) : WInv (gcCrashState w now n) :=
+  WInv.cold w.flavor (gcSweepCut_safe hw.be w.inflight (gcCandidates w.be now) n).1
+
+theorem gcCrashState_reads {w : W} (hw : WInv w) (now n : Nat) (x : Path) :
+    readCold (gcCrashState w now n).be x = readCold w.be x :=
+  (gcSweepCut_safe hw.be w.inflight (gcCandidates w.be now) n).2.1 x
+
+theorem abortUpload_inv {w : W} (hw : WInv w) : WInv (abortUpload w) :=
+  ⟨hw.be.mono (Nat.le_succ _), hw.cache⟩
+
 theorem runEvent_inv {w : W} (hw : WInv w) (e : Event) : WInv (runEvent w e) := by
   cases e with
   | call now c => exact wStep_inv hw now c
@@ -133,6 +173,8 @@ theorem runEvent_inv {w : W} (hw : WInv w) (e : Event) : WInv (runEvent w e) := 
   | crash now c n => exact crashState_inv hw now c n
   | gc now => exact gcRun_inv hw now
   | legacy now k data tok => exact legacyPut_inv hw now k data tok
+  | gcCrash now n => exact gcCrashState_inv hw now n
+  | abort => exact abortUpload_inv hw
 
 theorem run_inv {w : W} (hw : WInv w) (es : List Event) : WInv (run w es) := by
   induction es generalizing w with
